@@ -1,0 +1,14 @@
+//go:build verif
+// +build verif
+
+package ipfix
+
+// verifHook is set by verification drivers (build tag verif) to observe, and to hold a
+// goroutine at, the lock boundaries of the template cache. It is nil otherwise.
+var verifHook func(ev string, shard *TemplatesShard, key uint32)
+
+func vhook(ev string, shard *TemplatesShard, key uint32) {
+	if h := verifHook; h != nil {
+		h(ev, shard, key)
+	}
+}
